@@ -802,6 +802,10 @@ def _otypes_from_return_annotation(func):
     annotation = getattr(func, "__annotations__", {}).get("return")
     if annotation in (float, "float"):
         return [float]
+    if annotation in (int, "int"):
+        return [int]
+    if annotation in (bool, "bool"):
+        return [bool]
     return None
 
 
